@@ -349,7 +349,7 @@ func init() {
 	Registry["C06"] = func(tier string) []fw.Scenario {
 		L, LP := 3, 2
 		if tier == "thorough" {
-			L, LP = 4, 3
+			L, LP = 6, 4
 		}
 		rows, pairs := rowsAndPairs()
 		var scns []fw.Scenario
